@@ -63,6 +63,7 @@ inductive Err where
   | notInSubnet
   | adjacency     -- "can be merge to one or has wrong order"
   | nullPool      -- ensureIPAMConf: null element of the pool list
+  | store         -- ensureIPAMConf: ConfigurePool returned an error (store list failed)
 deriving DecidableEq, Repr
 
 instance {ε α : Type} [DecidableEq ε] [DecidableEq α] : DecidableEq (Except ε α)
@@ -319,5 +320,16 @@ def ensureConf {τ : Type} [DecidableEq τ] (decode : τ → Except Err (List Po
   else match decode newConf with
     | .error e => (s, .rejected e)
     | .ok ps => ({ lastConf := newConf, pools := sortPools ps }, .configured)
+
+
+/-- `ensureIPAMConf` with the one store-dependent step made explicit: `storeOk = false` is a `ConfigurePool`
+    that returns an error (its list of the persisted FloatingIPs failed).  The method then returns the error
+    BEFORE `*lastConf = newConf`, so that the next poll of the same ConfigMap text tries again. -/
+def ensureConfStore {τ : Type} [DecidableEq τ] (decode : τ → Except Err (List Pool)) (s : Reloader τ) (newConf : τ)
+    (storeOk : Bool) : Reloader τ × ReloadOutcome :=
+  if newConf = s.lastConf then (s, .unchanged)
+  else match decode newConf with
+    | .error e => (s, .rejected e)
+    | .ok ps => if storeOk then ({ lastConf := newConf, pools := sortPools ps }, .configured) else (s, .rejected .store)
 
 end Galaxy.Pool
